@@ -353,7 +353,7 @@ def _job(arg):
 
 
 def overlaps(prog: List[Dict[str, Any]]) -> bool:
-    """generator-side filter only (the verdicts come from TLC): do two sized statements of a section share an address?"""
+    """generator-side filter only (the verdicts come from TLC): do two sized statements share an address?"""
     ptr = {"code": 0, "text": 0, "data": 0x80000, "bss": 0xA0000}
     sec = "code"
     used: Dict[str, List[Tuple[int, int]]] = {}
@@ -366,10 +366,10 @@ def overlaps(prog: List[Dict[str, Any]]) -> bool:
             ptr[sec] = s["val"]
         elif s["k"] in ("data", "instr"):
             a, n = ptr[sec], max(1, s["size"] + 2)
-            for (b, m) in used.get(sec, []):
+            for (b, m) in used.get("all", []):       # one address space: sections moved onto each other by .ORG overlap too
                 if a < b + m and b < a + n:
                     return True
-            used.setdefault(sec, []).append((a, n))
+            used.setdefault("all", []).append((a, n))
             ptr[sec] += s["size"] + 2
     return False
 
